@@ -37,6 +37,10 @@ def coverage(ctx, idx, ra, rb, rc):
                 ctx.violate(rc, con, d.module.rel, line, "a data command returns a non-array value (%s)" % type(v).__name__ if not hasattr(v, "tag") else "a data command returns %s, not an array" % v.tag)
                 continue
             inputs = frozenset(t for t in v.D if is_input_token(t))
+            # a return chosen by a test on an input's own values (a statistic, an extreme) computes its cells "from" that input as
+            # well, whatever it then fills them with: the input's missing cells must stay missing in it
+            ctl = frozenset().union(*[r.cond_deps.get(id(t_), frozenset()) for t_, p_ in r.return_conds.get(id(s), ())]) if r.return_conds.get(id(s)) else frozenset()
+            inputs = inputs | frozenset(t for t in ctl if is_input_token(t) and t in R.input_tokens(d))
             miss = inputs - v.M
             if miss:
                 ctx.violate(ra, con, d.module.rel, line,
